@@ -634,17 +634,18 @@ func EVAL(ctx context.Context, ast MalType, env EnvType) (res MalType, e error) 
 			f := el.(List).Val[0]
 			if Q[MalFunc](f) {
 				fn := f.(MalFunc)
+				call := ast // a call that cannot bind its arguments is reported at the call
 				ast = fn.Exp
 				env, e = NewSubordinateEnvWithBinds(fn.Env, fn.Params, List{Val: el.(List).Val[1:]})
 				if e != nil {
 					if ast == nil {
-						return nil, lisperror.NewLispError(e, nil)
+						return nil, lisperror.NewLispError(e, call)
 					}
 					switch v := ast.(List).Val[0].(type) {
 					case Symbol:
-						return nil, lisperror.NewLispError(fmt.Errorf("%s (around %s)", e, v.Val), ast)
+						return nil, lisperror.NewLispError(fmt.Errorf("%s (around %s)", e, v.Val), call)
 					default:
-						return nil, lisperror.NewLispError(e, ast)
+						return nil, lisperror.NewLispError(e, call)
 					}
 				}
 			} else {
